@@ -116,6 +116,9 @@ def _drain(ctx, R, roles, T):
         R.fail("CEO-drain", q + "|loop", "the read is not inside a loop: only the first chunk is delivered", f.loc(pn.ast))
         return
     head = pn.loops[-1]
+    from ..util import always_reached
+    R.check(always_reached(g, head) and always_reached(g, pn, head) if head.kind == "iter" else g.dominates([pn], g.exit, exc=False), "CEO-drain", q + "|always-reads",
+            "the drain ends only after reading (no return before the first read)", "the drain generator can end without reading from the stream (an early return): the output is empty and the stream is left open on the device side", f.loc(pn.ast))
     pt = T.term(f, pn, pc)
     ys = yields_of(g)
     R.check(len(ys) == 1, "CEO-drain", q + "|one-yield", "one yield site", "the drain generator has %d yield sites; each payload must be yielded exactly once" % len(ys), f.loc())
